@@ -319,7 +319,8 @@ fn run_prog(tlk: &str, fam: &str, segs: &str) -> String {
 }
 
 /// lines: `;`-joined  X<hex> (text line) | S<hex indent>.<hex trail> (statement line, alternating
-/// if t / endif) | K<hex indent>.<hex comment text> (comment line) | Z<hex text>.<hex comment> (text
+/// if t / endif) | M<hex indent>.<hex trail> (the same, the opening statement written `if (t<line break>  )`:
+/// it continues on the next line while a bracket is open) | K<hex indent>.<hex comment text> (comment line) | Z<hex text>.<hex comment> (text
 /// with a trailing line comment); nl in n|rn|r ; a final `!` item = no newline after the last line.
 /// U+0001 inside a text stands for the family's variable tag `{{ v }}`, U+0003 for the raw block
 /// `{% raw %}r{% endraw %}`.
@@ -350,9 +351,11 @@ fn line_sources(f: &Fam, nl: &str, lines: &str) -> (String, String) {
                 b.push_str(&t);
                 b.push_str(this_nl);
             }
-            b'S' => {
+            b'S' | b'M' => {
                 let (ind, trail) = body.split_once('.').unwrap();
-                let w = if nblock % 2 == 0 { "if t" } else { "endif" };
+                // `M`: the opening statement goes on behind a line break inside brackets
+                let multi = format!("if (t{}  )", nl);
+                let w: &str = if nblock % 2 == 0 { if it.as_bytes()[0] == b'M' { &multi } else { "if t" } } else { "endif" };
                 nblock += 1;
                 a.push_str(&format!("{}{} {}{}{}", unhexs(ind), f.ls(), w, unhexs(trail), this_nl));
                 // the block tag on a line of its own (blanks after a line statement belong to it)
@@ -1262,13 +1265,13 @@ fn gen_line(out: &mut impl Write, tier: &str, rng: &mut Rng) {
             }
             match kind {
                 0 | 1 | 2 => items.push(format!("X{}", hexs(pk(rng, &texts)))),
-                3 | 4 | 5 => items.push(format!("S{}.{}", hexs(pk(rng, &indents)), hexs(pk(rng, &trails)))),
+                3 | 4 | 5 => items.push(format!("{}{}.{}", if rng.chance(1, 5) { "M" } else { "S" }, hexs(pk(rng, &indents)), hexs(pk(rng, &trails)))),
                 6 => items.push(format!("K{}.{}", hexs(pk(rng, &["", " ", "  ", "\t", " \t ", "\u{a0}", " \u{3000}"])), hexs(pk(rng, &comments)))),
                 _ => items.push(format!("Z{}.{}", hexs(pk(rng, &["a", "b ", "\u{1}  ", "\u{1}"])), hexs(pk(rng, &comments)))),
             }
         }
         // close an open `if`
-        let ns = items.iter().filter(|x| x.starts_with('S')).count();
+        let ns = items.iter().filter(|x| x.starts_with('S') || x.starts_with('M')).count();
         if ns % 2 == 1 {
             items.push(format!("S{}.{}", hexs(pk(rng, &indents)), hexs(pk(rng, &trails))));
             if rng.chance(1, 2) {
@@ -1713,6 +1716,49 @@ fn gen_itok(out: &mut impl Write, tier: &str, rng: &mut Rng) {
     }
 }
 
+// -- the identifier scan as a kernel ---------------------------------------------------------------
+
+/// `kid <hex s>`: the real `lex_identifier(s)` (length in bytes of the identifier `s` starts with) and
+/// which of its two forms was compiled
+#[cfg(feature = "hooks")]
+fn run_kid(shex: &str) -> String {
+    let s = unhexs(shex);
+    let r = guarded(|| minijinja::verif_hooks::lex_identifier(&s));
+    format!(
+        "kid {}\tlen={}\tunicode={}",
+        shex,
+        r.map(|x| x.to_string()).unwrap_or_else(|_| "panic".into()),
+        if minijinja::verif_hooks::UNICODE_IDENTIFIERS { 1 } else { 0 }
+    )
+}
+
+#[cfg(not(feature = "hooks"))]
+fn run_kid(shex: &str) -> String {
+    format!("kid {}\tlen=nohooks", shex)
+}
+
+/// every string of length <= 3 over ASCII letters, digits, `_`, separators and non-ASCII characters
+/// of every identifier class (start, continue only, neither; 2, 3 and 4 bytes long)
+fn gen_kid(out: &mut impl Write) {
+    let alpha: Vec<&str> = vec![
+        "a", "Z", "0", "9", "_", "-", " ", ".", "\u{e9}", "\u{304d}", "\u{2118}", "\u{212e}", "\u{b7}", "\u{1f40d}", "\u{301}", "\u{b2}",
+        "\u{2167}", "\u{200d}", "\u{aa}", "\u{663}", "}", "%",
+    ];
+    let mut level: Vec<String> = vec![String::new()];
+    for _ in 0..3 {
+        let mut next = vec![];
+        for w in &level {
+            for c in &alpha {
+                next.push(format!("{}{}", w, c));
+            }
+        }
+        for w in &next {
+            emit(out, run_kid(&hexs(w)));
+        }
+        level = next;
+    }
+}
+
 // -- entry points -----------------------------------------------------------------------------
 
 fn ctx() -> minijinja::Value {
@@ -1763,6 +1809,24 @@ fn run_entry(tlk: &str, fam: &str, segs: &str) -> String {
             Ok(String::from_utf8(buf).unwrap())
         })),
     );
+    // the borrowing add_template
+    {
+        let mut envb: minijinja::Environment<'_> = mk_env(tlk, &f).unwrap();
+        let r = guarded(|| envb.add_template("t", &src));
+        match r {
+            Ok(Ok(())) => put("add_template_borrowed", fmt_res(guarded(|| envb.get_template("t")?.render(ctx())))),
+            Ok(Err(e)) => put("add_template_borrowed", format!("err:{}", error_kind_name(&e))),
+            Err(_) => put("add_template_borrowed", "panic".into()),
+        }
+    }
+    // reached from another template: included, and as the parent of a child that overrides nothing
+    for (key, word) in [("include", "include"), ("extends", "extends")] {
+        let mut envi = mk_env(tlk, &f).unwrap();
+        let s3 = src.clone();
+        let wrapper = format!("{} {} 't' {}", f.bs(), word, f.be());
+        envi.set_loader(move |name| Ok(if name == "t" { Some(s3.clone()) } else if name == "w" { Some(wrapper.clone()) } else { None }));
+        put(key, fmt_res(guarded(|| envi.get_template("w")?.render(ctx()))));
+    }
     // add_template + get_template, then a clone of the environment, then flipped settings
     let mut env2 = mk_env(tlk, &f).unwrap();
     let added = guarded(|| env2.add_template_owned("t".to_string(), src.clone()));
@@ -1971,6 +2035,9 @@ fn main() {
             if which == "all" || which == "kac" {
                 gen_kac(&mut out, &tier, &mut Rng::new(seed ^ 0x70));
             }
+            if which == "all" || which == "kid" {
+                gen_kid(&mut out);
+            }
             if which == "all" || which == "itok" {
                 gen_itok(&mut out, &tier, &mut Rng::new(seed ^ 0x80));
             }
@@ -1995,6 +2062,7 @@ fn main() {
                 "kern" => run_kern(a[1], a[2]),
                 "kac" => run_kac(a[1], a[2], a.get(3).copied().unwrap_or("")),
                 "big" => run_seg(a[1], a[2], a[3]).replacen("seg ", "big ", 1),
+                "kid" => run_kid(a[1]),
                 "itok" => run_itok(a[1], a[2], a[3]),
                 "entry" => run_entry(a[1], a[2], a[3]),
                 "wrap" => run_wrap(a[1], a[2], a[3], a[4]),
